@@ -15,8 +15,41 @@ Notation mstep' := (mstep aw fuel).
 Notation mrun' := (mrun aw fuel).
 
 (* a live task of the fragment between two steps: empty resume table, auto-yield on *)
-Definition T (body : list stmt) (idx : nat) (lm : locals) (dn : bool) (ret : option Z) : task :=
-  mkT body idx lm [] true dn ret false.
+Definition T (body : list stmt) (idx : nat) (lm : locals) (m : posmap) (dn : bool) (ret : option Z) : task :=
+  mkT body idx lm m true dn ret false.
+
+(* the resume table between two steps of a fragment body holds only stale entries of compound nodes
+   that belong to top-level statements already passed *)
+Definition stale (idx : nat) (m : posmap) : Prop :=
+  forall k, pos_get k m <> None -> exists j l, (j < idx)%nat /\ k = l ++ [j].
+
+Lemma stale_fresh : forall idx m, stale idx m -> fresh [idx] m.
+Proof.
+  intros idx m H k [l ->]. destruct (pos_get (l ++ [idx]) m) eqn:E; [| reflexivity].
+  destruct (H (l ++ [idx])) as (j & l' & Hj & He); [congruence |].
+  apply app_inj_tail in He as [_ He]. lia.
+Qed.
+
+Lemma stale_S : forall idx m, stale idx m -> stale (S idx) m.
+Proof. intros idx m H k Hk. destruct (H k Hk) as (j & l & Hj & ->). exists j, l. split; [lia | reflexivity]. Qed.
+
+Lemma stale_nil : forall idx, stale idx [].
+Proof. intros idx k H. cbn in H. congruence. Qed.
+
+Lemma pos_get_set_same : forall k v m, pos_get k (pos_set k v m) = Some v.
+Proof.
+  induction m as [| [k' w] m IH]; cbn.
+  - now rewrite path_eqb_refl.
+  - destruct (path_eqb k k') eqn:E; cbn; rewrite E; [reflexivity | assumption].
+Qed.
+
+Lemma stale_set : forall idx m v, stale idx m -> stale (S idx) (pos_set [O; idx] v m).
+Proof.
+  intros idx m v H k Hk. destruct (list_eq_dec Nat.eq_dec k [O; idx]) as [-> | Hne].
+  - exists idx, [O]. split; [lia | reflexivity].
+  - rewrite pos_get_set_other in Hk by congruence. destruct (H k Hk) as (j & l & Hj & ->).
+    exists j, l. split; [lia | reflexivity].
+Qed.
 
 Definition done_after (body : list stmt) (idx : nat) : bool := negb (Nat.ltb (S idx) (length body)).
 
@@ -55,10 +88,10 @@ Proof.
 Qed.
 
 (* one step of a live task at statement s *)
-Lemma mstep_at : forall body idx lm ret s,
+Lemma mstep_at : forall body idx lm m ret s,
   nth_error body idx = Some s ->
-  mstep' (T body idx lm false ret) =
-  match MX [idx] s (mkM lm [] []) with
+  mstep' (T body idx lm m false ret) =
+  match MX [idx] s (mkM lm m []) with
   | (st, ONormal) =>
       (mkT body (S idx) (m_loc st) (m_pos st) true (done_after body idx) ret false,
        EvExec idx :: out_events (m_out st))
@@ -78,23 +111,23 @@ Definition ret_of (r : sres) (ret0 : option Z) : option Z :=
   match r with SReturn_ v => Some v | _ => ret0 end.
 
 (* ------------------------------------------------------------------ one quiet top-level statement *)
-Lemma step_quiet : forall body idx s ret (P : var -> Prop) lm ls,
-  nth_error body idx = Some s -> quiet s = true ->
+Lemma step_quiet : forall body idx s ret (P : var -> Prop) lm ls m,
+  nth_error body idx = Some s -> quiet s = true -> fresh [idx] m ->
   (forall y, In y (mentions s) -> P y) -> agree P lm ls ->
   exists lm' ls' o r,
     SX s ls = (ls', o, r) /\ r <> SFuel /\ agree P lm' ls' /\ same_dom lm lm' /\
     exists ev, outputs_of ev = o /\
-      mstep' (T body idx lm false ret) =
+      mstep' (T body idx lm m false ret) =
       (match r with
-       | SReturn_ v => T body idx lm' true (Some v)
-       | _ => T body (S idx) lm' (done_after body idx) ret
+       | SReturn_ v => T body idx lm' m true (Some v)
+       | _ => T body (S idx) lm' m (done_after body idx) ret
        end, ev).
 Proof.
-  intros body idx s ret P lm ls Hn Hq HP Ha.
-  destruct (quiet_sim aw fuel s Hq [idx] lm ls [] [] P (fresh_nil _) Ha HP)
+  intros body idx s ret P lm ls m Hn Hq Hfr HP Ha.
+  destruct (quiet_sim aw fuel s Hq [idx] lm ls m [] P Hfr Ha HP)
     as (lm' & ls' & o & r & E & N & M & A & D & _).
   exists lm', ls', o, r. repeat (split; [assumption |]).
-  rewrite (mstep_at body idx lm ret s Hn), M. cbn [app].
+  rewrite (mstep_at body idx lm m ret s Hn), M. cbn [app].
   destruct r as [| v |]; [| | congruence]; cbn [out_of m_loc m_pos m_out].
   - eexists. split; [| reflexivity]. cbn. apply outputs_of_out_events.
   - eexists. split; [| reflexivity]. cbn. rewrite outputs_of_app, outputs_of_out_events. cbn. apply app_nil_r.
@@ -125,29 +158,29 @@ Lemma mfor_auto : forall cond bodyf upd k st, (1 <= k)%nat ->
 Proof. intros cond bodyf upd k st H. destruct k; [lia | reflexivity]. Qed.
 
 (* ------------------------------------------------------------------ a top-level while loop *)
-Lemma while_sim : forall body idx c b ret (P : var -> Prop),
-  nth_error body idx = Some (SWhile c b) -> forallb quiet b = true ->
+Lemma while_sim : forall body idx c b ret (P : var -> Prop) m,
+  nth_error body idx = Some (SWhile c b) -> forallb quiet b = true -> fresh [idx] m ->
   (forall y, In y (mentions (SWhile c b)) -> P y) -> (1 <= fuel)%nat ->
   forall k lm ls ls' o r,
     agree P lm ls ->
     sloop (fun l => truthy (eval c l)) (sblock_with SX b) (fun l => l) k ls = (ls', o, r) -> r <> SFuel ->
-    exists n t' ev, mrun' n (T body idx lm false ret) = (t', ev) /\ outputs_of ev = o /\
+    exists n t' ev, mrun' n (T body idx lm m false ret) = (t', ev) /\ outputs_of ev = o /\
       match r with
-      | SReturn_ v => exists lm', t' = T body idx lm' true (Some v)
-      | _ => exists lm', t' = T body (S idx) lm' (done_after body idx) ret /\ agree P lm' ls' /\ same_dom lm lm'
+      | SReturn_ v => exists lm', t' = T body idx lm' m true (Some v)
+      | _ => exists lm', t' = T body (S idx) lm' m (done_after body idx) ret /\ agree P lm' ls' /\ same_dom lm lm'
       end.
 Proof.
-  intros body idx c b ret P Hn Hq HP Hfuel.
+  intros body idx c b ret P m Hn Hq Hfr HP Hfuel.
   induction k as [| k IH]; intros lm ls ls' o r Ha E N; cbn [sloop] in E.
   - inversion E; subst. congruence.
   - assert (Ev : eval c lm = eval c ls).
     { apply (eval_agree P); auto. intros y Hy. apply HP. cbn. apply in_or_app. now left. }
-    pose proof (mstep_at body idx lm ret _ Hn) as Hst.
+    pose proof (mstep_at body idx lm m ret _ Hn) as Hst.
     cbn [mexec] in Hst. rewrite mwhile_auto in Hst by assumption. cbn [m_loc] in Hst. rewrite Ev in Hst.
     destruct (truthy (eval c ls)).
     + (* one iteration *)
-      destruct (quiet_block_sim aw fuel b Hq (O :: [idx]) lm ls [] [] P) as (lm1 & ls1 & o1 & r1 & E1 & N1 & M1 & A1 & D1 & _).
-      { apply fresh_nil. } { assumption. }
+      destruct (quiet_block_sim aw fuel b Hq (O :: [idx]) lm ls m [] P) as (lm1 & ls1 & o1 & r1 & E1 & N1 & M1 & A1 & D1 & _).
+      { apply fresh_cons, Hfr. } { assumption. }
       { intros y Hy. apply HP. cbn. apply in_or_app. now right. }
       rewrite E1 in E. rewrite M1 in Hst. cbn [app] in Hst.
       destruct r1 as [| v |]; [| | congruence]; cbn [out_of m_loc m_pos m_out] in Hst.
@@ -198,20 +231,20 @@ Lemma mexec_for_absent : forall p x i c u b st,
   end.
 Proof. intros. cbn [mexec]. rewrite H. reflexivity. Qed.
 
-Lemma for_reentry_sim : forall body idx x i c u b ret (P : var -> Prop),
-  nth_error body idx = Some (SFor x i c u b) -> forallb quiet b = true ->
+Lemma for_reentry_sim : forall body idx x i c u b ret (P : var -> Prop) m,
+  nth_error body idx = Some (SFor x i c u b) -> forallb quiet b = true -> fresh [idx] m ->
   (forall y, In y (mentions (SFor x i c u b)) -> P y) -> (1 <= fuel)%nat ->
   forall k lm ls ls' o r,
     agree P lm ls -> lookup x lm <> None ->
     sloop (fun l => truthy (eval c l)) (sblock_with SX b) (fun l => assign x (eval u l) l) k ls = (ls', o, r) ->
     r <> SFuel ->
-    exists n t' ev, mrun' n (T body idx lm false ret) = (t', ev) /\ outputs_of ev = o /\
+    exists n t' ev, mrun' n (T body idx lm m false ret) = (t', ev) /\ outputs_of ev = o /\
       match r with
-      | SReturn_ v => exists lm', t' = T body idx lm' true (Some v)
-      | _ => exists lm', t' = T body (S idx) lm' (done_after body idx) ret /\ agree P lm' ls' /\ same_dom lm lm'
+      | SReturn_ v => exists lm', t' = T body idx lm' m true (Some v)
+      | _ => exists lm', t' = T body (S idx) lm' m (done_after body idx) ret /\ agree P lm' ls' /\ same_dom lm lm'
       end.
 Proof.
-  intros body idx x i c u b ret P Hn Hq HP Hfuel.
+  intros body idx x i c u b ret P m Hn Hq Hfr HP Hfuel.
   assert (HPc : forall y, In y (evars c) -> P y).
   { intros y Hy. apply HP. cbn. right. apply in_or_app. right. apply in_or_app. now left. }
   assert (HPu : forall y, In y (evars u) -> P y).
@@ -221,12 +254,12 @@ Proof.
   induction k as [| k IH]; intros lm ls ls' o r Ha Hx E N; cbn [sloop] in E.
   - inversion E; subst. congruence.
   - assert (Ev : eval c lm = eval c ls) by (apply (eval_agree P); auto).
-    pose proof (mstep_at body idx lm ret _ Hn) as Hst.
+    pose proof (mstep_at body idx lm m ret _ Hn) as Hst.
     rewrite mexec_for_present in Hst by (apply exists_in_true; assumption).
     rewrite mfor_auto in Hst by assumption. cbn [m_loc] in Hst. rewrite Ev in Hst.
     destruct (truthy (eval c ls)).
-    + destruct (quiet_block_sim aw fuel b Hq (O :: [idx]) lm ls [] [] P) as (lm1 & ls1 & o1 & r1 & E1 & N1 & M1 & A1 & D1 & _);
-        [apply fresh_nil | assumption | assumption |].
+    + destruct (quiet_block_sim aw fuel b Hq (O :: [idx]) lm ls m [] P) as (lm1 & ls1 & o1 & r1 & E1 & N1 & M1 & A1 & D1 & _);
+        [apply fresh_cons, Hfr | assumption | assumption |].
       rewrite E1 in E. rewrite M1 in Hst. cbn [app] in Hst.
       destruct r1 as [| v |]; [| | congruence]; cbn [out_of m_loc m_pos m_out with_loc] in Hst.
       * destruct (sloop _ _ _ k _) as [[l2 o2] r2] eqn:E2. inversion E; subst ls' o r.
@@ -264,21 +297,21 @@ Lemma sloop_unfold : forall cond bodyf upd k l, (1 <= k)%nat ->
   else (l, [], SNormal).
 Proof. intros. destruct k; [lia | reflexivity]. Qed.
 
-Lemma for_first_sim : forall body idx x i c u b ret (P : var -> Prop),
-  nth_error body idx = Some (SFor x i c u b) -> forallb quiet b = true ->
+Lemma for_first_sim : forall body idx x i c u b ret (P : var -> Prop) m,
+  nth_error body idx = Some (SFor x i c u b) -> forallb quiet b = true -> fresh [idx] m ->
   (forall y, In y (mentions (SFor x i c u b)) -> P y) -> (1 <= fuel)%nat ->
   forall lm ls ls' o r,
     agree P lm ls -> lookup x lm = None ->
     SX (SFor x i c u b) ls = (ls', o, r) -> r <> SFuel ->
-    exists n t' ev, mrun' n (T body idx lm false ret) = (t', ev) /\ outputs_of ev = o /\
+    exists n t' ev, mrun' n (T body idx lm m false ret) = (t', ev) /\ outputs_of ev = o /\
       match r with
-      | SReturn_ v => exists lm', t' = T body idx lm' true (Some v)
-      | _ => exists lm', t' = T body (S idx) lm' (done_after body idx) ret /\
+      | SReturn_ v => exists lm', t' = T body idx lm' m true (Some v)
+      | _ => exists lm', t' = T body (S idx) lm' m (done_after body idx) ret /\
                          agree (fun y => P y /\ y <> x) lm' ls' /\
                          (forall z, z <> x -> (lookup z lm' = None <-> lookup z lm = None))
       end.
 Proof.
-  intros body idx x i c u b ret P Hn Hq HP Hfuel lm ls ls' o r Ha Hx E N.
+  intros body idx x i c u b ret P m Hn Hq Hfr HP Hfuel lm ls ls' o r Ha Hx E N.
   assert (HPi : forall y, In y (evars i) -> P y).
   { intros y Hy. apply HP. cbn. right. apply in_or_app. now left. }
   assert (HPc : forall y, In y (evars c) -> P y).
@@ -297,20 +330,20 @@ Proof.
   { unfold lm0. rewrite lookup_declare, Nat.eqb_refl. discriminate. }
   cbn [sexec] in E. fold ls0 in E. rewrite sloop_unfold in E by assumption.
   assert (Ev : eval c lm0 = eval c ls0) by (apply (eval_agree P); auto).
-  pose proof (mstep_at body idx lm ret _ Hn) as Hst.
+  pose proof (mstep_at body idx lm m ret _ Hn) as Hst.
   rewrite mexec_for_absent in Hst by (apply exists_in_false; assumption).
   unfold with_loc in Hst. cbn [m_loc m_pos m_out] in Hst. fold lm0 in Hst.
   rewrite mfor_auto in Hst by assumption. cbn [m_loc] in Hst. rewrite Ev in Hst.
   destruct (truthy (eval c ls0)).
-  - destruct (quiet_block_sim aw fuel b Hq (O :: [idx]) lm0 ls0 [] [] P) as (lm1 & ls1 & o1 & r1 & E1 & N1 & M1 & A1 & D1 & _);
-      [apply fresh_nil | assumption | assumption |].
+  - destruct (quiet_block_sim aw fuel b Hq (O :: [idx]) lm0 ls0 m [] P) as (lm1 & ls1 & o1 & r1 & E1 & N1 & M1 & A1 & D1 & _);
+      [apply fresh_cons, Hfr | assumption | assumption |].
     rewrite E1 in E. rewrite M1 in Hst. cbn [app] in Hst.
     destruct r1 as [| v |]; [| | congruence]; cbn [out_of m_loc m_pos m_out with_loc] in Hst.
     + destruct (sloop _ _ _ (Nat.pred fuel) _) as [[l2 o2] r2] eqn:E2.
       assert (Eu : eval u lm1 = eval u ls1) by (apply (eval_agree P); auto).
       assert (N2 : r2 <> SFuel).
       { intros ->. inversion E; subst. congruence. }
-      destruct (for_reentry_sim body idx x i c u b ret P Hn Hq HP Hfuel (Nat.pred fuel)
+      destruct (for_reentry_sim body idx x i c u b ret P m Hn Hq Hfr HP Hfuel (Nat.pred fuel)
                   (assign x (eval u lm1) lm1) (assign x (eval u ls1) ls1) l2 o2 r2) as (n & t' & ev & R & O & F); auto.
       { rewrite Eu. now apply agree_assign. }
       { intros H0. apply (same_dom_assign x (eval u lm1) lm1) in H0. apply D1 in H0. contradiction. }
@@ -339,15 +372,184 @@ Proof.
 Qed.
 
 
+
+
+(* ------------------------------------------------------------------ while (c) { quiet...; yield; } *)
+Lemma quiet_yield_last_split : forall b, quiet_yield_last b = true ->
+  exists b0, b = b0 ++ [SYield] /\ forallb quiet b0 = true.
+Proof.
+  induction b as [| s r IH]; intros H; [discriminate |].
+  destruct r as [| s' r'].
+  - destruct s; try discriminate. exists []. split; reflexivity.
+  - cbn [quiet_yield_last] in H. apply andb_true_iff in H as [H1 H2].
+    destruct (IH H2) as (b0 & E & Q). exists (s :: b0). split.
+    + cbn [app]. now rewrite <- E.
+    + cbn [forallb]. now rewrite H1, Q.
+Qed.
+
+Lemma sblock_app_yield : forall b0 ls,
+  sblock_with SX (b0 ++ [SYield]) ls =
+  match sblock_with SX b0 ls with (l1, o1, SNormal) => (l1, o1, SNormal) | r => r end.
+Proof.
+  induction b0 as [| s b0 IH]; intros ls; [reflexivity |].
+  cbn [app sblock_with]. fold (sblock_with SX). destruct (SX s ls) as [[l1 o1] r1].
+  destruct r1; try reflexivity. rewrite IH. destruct (sblock_with SX b0 l1) as [[l2 o2] r2].
+  destruct r2; reflexivity.
+Qed.
+
+Lemma cgo_prefix : forall b0, Forall (QS aw fuel) b0 ->
+  forall rest key i lm ls m mcur o0 (P : var -> Prop),
+    fresh key m -> (mcur = m \/ exists j, mcur = pos_set key j m) ->
+    agree P lm ls -> (forall y, In y (flat_map mentions b0) -> P y) ->
+    exists lm' ls' o r,
+      sblock_with SX b0 ls = (ls', o, r) /\ r <> SFuel /\ agree P lm' ls' /\ same_dom lm lm' /\
+      match r with
+      | SReturn_ v => cgo MX key 0 (b0 ++ rest) i (mkM lm mcur o0) = (mkM lm' m (o0 ++ o), OReturn v)
+      | _ => exists mcur', (mcur' = m \/ exists j, mcur' = pos_set key j m) /\
+             cgo MX key 0 (b0 ++ rest) i (mkM lm mcur o0) =
+             cgo MX key 0 rest (i + length b0) (mkM lm' mcur' (o0 ++ o))
+      end.
+Proof.
+  induction 1 as [| s b0 Hs Hb IH]; intros rest key i lm ls m mcur o0 P Hf Hcur Ha HP.
+  - exists lm, ls, [], SNormal. cbn [sblock_with app length]. rewrite Nat.add_0_r, app_nil_r.
+    split; [reflexivity |]. split; [discriminate |]. split; [assumption |]. split; [apply same_dom_refl |].
+    exists mcur. split; [assumption | reflexivity].
+  - assert (Hset : pos_set key i mcur = pos_set key i m).
+    { destruct Hcur as [-> | [j ->]]; [reflexivity | apply pos_set_set]. }
+    cbn [app cgo]. rewrite ltb_0. unfold with_pos. cbn [m_loc m_pos m_out]. rewrite Hset.
+    destruct (Hs (i :: key) lm ls (pos_set key i m) o0 P) as (lm1 & ls1 & o1 & r1 & E1 & N1 & M1 & A1 & D1 & _).
+    { apply fresh_child, Hf. }
+    { assumption. }
+    { intros y Hy. apply HP. cbn [flat_map]. apply in_or_app. now left. }
+    rewrite M1. destruct r1 as [| v |]; [| | congruence]; cbn [out_of].
+    + unfold with_pos. cbn [m_loc m_pos m_out]. rewrite pos_set_set.
+      destruct (IH rest key (S i) lm1 ls1 m (pos_set key (S i) m) (o0 ++ o1) P)
+        as (lm2 & ls2 & o2 & r2 & E2 & N2 & A2 & D2 & F2); try assumption.
+      { right. now exists (S i). }
+      { intros y Hy. apply HP. cbn [flat_map]. apply in_or_app. now right. }
+      exists lm2, ls2, (o1 ++ o2), r2. cbn [sblock_with]. rewrite E1. fold (sblock_with SX). rewrite E2.
+      split; [reflexivity |]. split; [assumption |]. split; [assumption |].
+      split; [eapply same_dom_trans; eassumption |].
+      rewrite app_assoc. cbn [length]. rewrite Nat.add_succ_r. exact F2.
+    + unfold with_pos. cbn [m_loc m_pos m_out]. rewrite pos_del_set_absent by (apply Hf, below_refl).
+      exists lm1, ls1, o1, (SReturn_ v). cbn [sblock_with]. rewrite E1.
+      split; [reflexivity |]. split; [discriminate |]. split; [assumption |]. split; [assumption |]. reflexivity.
+Qed.
+
+Lemma cgo_yield_last : forall key i lm m mcur o0,
+  (mcur = m \/ exists j, mcur = pos_set key j m) ->
+  cgo MX key 0 [SYield] i (mkM lm mcur o0) = (mkM lm (pos_set key (S i) m) o0, OYield false).
+Proof.
+  intros key i lm m mcur o0 Hcur.
+  assert (Hset : pos_set key i mcur = pos_set key i m).
+  { destruct Hcur as [-> | [j ->]]; [reflexivity | apply pos_set_set]. }
+  cbn [cgo]. rewrite ltb_0. unfold with_pos. cbn [m_loc m_pos m_out mexec]. rewrite Hset, pos_set_set. reflexivity.
+Qed.
+
+Lemma cgo_skip : forall ss key start i st, (i + length ss <= start)%nat ->
+  cgo MX key start ss i st = (with_pos st (pos_del key (m_pos st)), ONormal).
+Proof.
+  induction ss as [| s ss IH]; intros key start i st H; [reflexivity |].
+  cbn [cgo]. cbn [length] in H. replace (Nat.ltb i start) with true by (symmetry; apply Nat.ltb_lt; lia).
+  apply IH. lia.
+Qed.
+
+Lemma while_ty_sim : forall body idx c b0 ret (P : var -> Prop) m,
+  nth_error body idx = Some (SWhile c (b0 ++ [SYield])) -> forallb quiet b0 = true -> fresh [idx] m ->
+  (forall y, In y (mentions (SWhile c (b0 ++ [SYield]))) -> P y) -> (1 <= fuel)%nat ->
+  forall k lm ls ls' o r mcur,
+    agree P lm ls -> (mcur = m \/ mcur = pos_set [O; idx] (S (length b0)) m) ->
+    sloop (fun l => truthy (eval c l)) (sblock_with SX (b0 ++ [SYield])) (fun l => l) k ls = (ls', o, r) ->
+    r <> SFuel ->
+    exists n t' ev, mrun' n (T body idx lm mcur false ret) = (t', ev) /\ outputs_of ev = o /\
+      match r with
+      | SReturn_ v => exists lm' m', t' = T body idx lm' m' true (Some v)
+      | _ => exists lm' m', t' = T body (S idx) lm' m' (done_after body idx) ret /\
+                            (m' = m \/ m' = pos_set [O; idx] (S (length b0)) m) /\
+                            agree P lm' ls' /\ same_dom lm lm'
+      end.
+Proof.
+  intros body idx c b0 ret P m Hn Hq Hfr HP Hfuel.
+  set (key := [O; idx]). set (mB := pos_set key (S (length b0)) m).
+  assert (Hkey : fresh key m) by (apply fresh_cons, Hfr).
+  assert (HQ : Forall (QS aw fuel) b0).
+  { rewrite forallb_forall in Hq. apply Forall_forall. intros s Hs. apply quiet_sim, Hq, Hs. }
+  assert (HPb : forall y, In y (flat_map mentions b0) -> P y).
+  { intros y Hy. apply HP. cbn [mentions]. apply in_or_app. right.
+    apply in_flat_map in Hy as (s & Hs & Hy). apply in_flat_map. exists s. split; [apply in_or_app; now left | assumption]. }
+  induction k as [| k IH]; intros lm ls ls' o r mcur Ha Hcur E N; cbn [sloop] in E.
+  - inversion E; subst. congruence.
+  - assert (Ev : eval c lm = eval c ls).
+    { apply (eval_agree P); auto. intros y Hy. apply HP. cbn. apply in_or_app. now left. }
+    destruct (truthy (eval c ls)) eqn:Ec.
+    + (* the loop continues; first from a state without resume entry *)
+      assert (HA : exists n t' ev, mrun' n (T body idx lm m false ret) = (t', ev) /\ outputs_of ev = o /\
+        match r with
+        | SReturn_ v => exists lm' m', t' = T body idx lm' m' true (Some v)
+        | _ => exists lm' m', t' = T body (S idx) lm' m' (done_after body idx) ret /\
+                              (m' = m \/ m' = mB) /\ agree P lm' ls' /\ same_dom lm lm'
+        end).
+      { pose proof (mstep_at body idx lm m ret _ Hn) as Hst.
+        cbn [mexec] in Hst. rewrite mwhile_auto in Hst by assumption. cbn [m_loc] in Hst. rewrite Ev, Ec in Hst.
+        unfold compound_with in Hst. cbn [m_pos] in Hst. fold key in Hst.
+        rewrite (Hkey key (below_refl key)) in Hst.
+        destruct (cgo_prefix b0 HQ [SYield] key 0 lm ls m m [] P Hkey (or_introl eq_refl) Ha HPb)
+          as (lm1 & ls1 & o1 & r1 & E1 & N1 & A1 & D1 & F1).
+        rewrite sblock_app_yield, E1 in E.
+        destruct r1 as [| v |]; [| | congruence].
+        - destruct F1 as (mc & Hmc & F1). rewrite F1 in Hst. cbn [Nat.add] in Hst.
+          rewrite (cgo_yield_last key (length b0) lm1 m mc ([] ++ o1) Hmc) in Hst. cbn [app] in Hst.
+          cbn [m_loc m_pos m_out] in Hst. fold mB in Hst.
+          destruct (sloop _ _ _ k ls1) as [[l2 o2] r2] eqn:E2. inversion E; subst ls' o r.
+          destruct (IH lm1 ls1 l2 o2 r2 mB A1 (or_intror eq_refl) E2 N) as (n & t' & ev & R & O & F).
+          exists (S n), t'; eexists. split; [| split].
+          + eapply mrun_S; [exact Hst | exact R].
+          + cbn. rewrite !outputs_of_app, outputs_of_out_events, O. cbn. now rewrite app_nil_r.
+          + destruct r2; try assumption.
+            * destruct F as (lm' & m' & -> & Hm' & A' & D'). exists lm', m'.
+              split; [reflexivity | split; [assumption | split; [assumption | eapply same_dom_trans; eauto]]].
+            * destruct F as (lm' & m' & -> & Hm' & A' & D'). exists lm', m'.
+              split; [reflexivity | split; [assumption | split; [assumption | eapply same_dom_trans; eauto]]].
+        - rewrite F1 in Hst. cbn [app m_loc m_pos m_out] in Hst. inversion E; subst ls' o r.
+          exists 1%nat; do 2 eexists. split; [| split].
+          + apply mrun_1. exact Hst.
+          + cbn. rewrite outputs_of_app, outputs_of_out_events. cbn. apply app_nil_r.
+          + exists lm1, m. reflexivity. }
+      destruct Hcur as [-> | ->]; [exact HA |].
+      (* from the state left by the trailing yield: one empty step, then as above *)
+      destruct HA as (n & t' & ev & R & O & F).
+      pose proof (mstep_at body idx lm mB ret _ Hn) as Hst.
+      cbn [mexec] in Hst. rewrite mwhile_auto in Hst by assumption. cbn [m_loc] in Hst. rewrite Ev, Ec in Hst.
+      unfold compound_with in Hst. cbn [m_pos] in Hst. fold key in Hst. unfold mB in Hst at 2.
+      rewrite pos_get_set_same in Hst.
+      rewrite cgo_skip in Hst by (rewrite app_length; cbn; lia).
+      unfold with_pos in Hst. cbn [m_loc m_pos m_out] in Hst. unfold mB in Hst.
+      rewrite pos_del_set_absent in Hst by (apply Hkey, below_refl).
+      exists (S n), t'; eexists. split; [| split].
+      * eapply mrun_S; [exact Hst | exact R].
+      * cbn. exact O.
+      * exact F.
+    + inversion E; subst ls' o r.
+      pose proof (mstep_at body idx lm mcur ret _ Hn) as Hst.
+      cbn [mexec] in Hst. rewrite mwhile_auto in Hst by assumption. cbn [m_loc] in Hst. rewrite Ev, Ec in Hst.
+      exists 1%nat; do 2 eexists. split; [| split].
+      * apply mrun_1. exact Hst.
+      * reflexivity.
+      * exists lm, mcur. split; [reflexivity | split; [assumption | split; [assumption | apply same_dom_refl]]].
+Qed.
+
 (* ------------------------------------------------------------------ the whole body *)
 Lemma top_ok_cases : forall s, top_ok s = true ->
   s = SYield \/ quiet s = true \/
   (exists c b, s = SWhile c b /\ forallb quiet b = true) \/
+  (exists c b0, s = SWhile c (b0 ++ [SYield]) /\ forallb quiet b0 = true) \/
   (exists x i c u b, s = SFor x i c u b /\ forallb quiet b = true).
 Proof.
   intros s H. destruct s; cbn in H |- *; auto.
-  - right; right; left; eauto.
-  - right; right; right. do 5 eexists. eauto.
+  - apply orb_true_iff in H as [H | H].
+    + right; right; left; eauto.
+    + right; right; right; left. destruct (quiet_yield_last_split b H) as (b0 & -> & Q). eauto.
+  - right; right; right; right. do 5 eexists. eauto.
 Qed.
 
 Lemma quiet_for_var : forall s, quiet s = true -> for_var s = [].
@@ -384,18 +586,19 @@ Proof. intros. now rewrite <- app_assoc. Qed.
 Lemma fuel_pos_of_loop : forall cond bodyf upd l r, sloop cond bodyf upd fuel l = r -> snd r <> SFuel -> (1 <= fuel)%nat.
 Proof. intros cond bodyf upd l r H N. destruct fuel; [| lia]. cbn in H. subst r. cbn in N. congruence. Qed.
 
-Lemma tail_sim : forall rest pre lm ls X ret0 dn,
+Lemma tail_sim : forall rest pre lm ls X ret0 dn m,
   forallb top_ok rest = true ->
   hygienic X rest = true ->
   (forall z, In z (flat_map for_var rest) -> lookup z lm = None) ->
   agree (fun y => ~ In y X) lm ls ->
   (dn = true -> rest = []) ->
+  stale (length pre) m ->
   forall ls' out r, sblock_with SX rest ls = (ls', out, r) -> r <> SFuel ->
-  exists n t' ev, mrun' n (T (pre ++ rest) (length pre) lm dn ret0) = (t', ev) /\
+  exists n t' ev, mrun' n (T (pre ++ rest) (length pre) lm m dn ret0) = (t', ev) /\
     t_done t' = true /\ t_stuck t' = false /\ outputs_of ev = out /\ t_ret t' = ret_of r ret0 /\
     (r = SNormal -> agree (fun y => ~ In y (X ++ flat_map for_var rest)) (t_loc t') ls').
 Proof.
-  induction rest as [| s rest IH]; intros pre lm ls X ret0 dn Htop Hhyg Habs Ha Hdn ls' out r E N.
+  induction rest as [| s rest IH]; intros pre lm ls X ret0 dn m Htop Hhyg Habs Ha Hdn Hst ls' out r E N.
   - cbn in E. inversion E; subst ls' out r. destruct dn.
     + exists 0%nat; do 2 eexists. cbn. repeat split; auto. intros _. cbn [flat_map]. rewrite app_nil_r. assumption.
     + exists 1%nat; do 2 eexists. split.
@@ -406,32 +609,36 @@ Proof.
     cbn [forallb] in Htop. apply andb_true_iff in Htop as [Hs Htop].
     apply hygienic_cons in Hhyg as [HP Hhyg].
     pose proof (nth_error_mid pre s rest) as Hn.
+    pose proof (stale_fresh _ _ Hst) as Hfr.
     cbn [sblock_with] in E. fold (sblock_with SX) in E.
     set (body := pre ++ s :: rest) in *.
     assert (Hbody : body = (pre ++ [s]) ++ rest) by apply app_cons_assoc.
     assert (Hlen : length (pre ++ [s]) = S (length pre)) by (rewrite app_length; cbn; lia).
-    destruct (top_ok_cases s Hs) as [-> | [Hq | [(c & b & -> & Hq) | (x & i & c & u & b & -> & Hq)]]].
+    assert (HstS : forall m', stale (S (length pre)) m' -> stale (length (pre ++ [s])) m') by (intros; now rewrite Hlen).
+    destruct (top_ok_cases s Hs) as [-> | [Hq | [(c & b & -> & Hq) | [(c & b0 & -> & Hq) | (x & i & c & u & b & -> & Hq)]]]].
     + (* yield *)
       cbn [sexec] in E.
       destruct (sblock_with SX rest ls) as [[l2 o2] r2] eqn:E2. inversion E; subst ls' out r.
-      destruct (IH (pre ++ [SYield]) lm ls X ret0 false) with (ls' := l2) (out := o2) (r := r2)
+      destruct (IH (pre ++ [SYield]) lm ls X ret0 false m) with (ls' := l2) (out := o2) (r := r2)
         as (n & t' & ev & R & F); auto.
       { cbn [for_var] in Hhyg. now rewrite app_nil_r in Hhyg. }
       { discriminate. }
+      { apply HstS, stale_S, Hst. }
       rewrite Hlen, <- Hbody in R.
       exists (S n), t'; eexists. split.
-      { eapply mrun_S; [| exact R]. rewrite (mstep_at body (length pre) lm ret0 _ Hn). cbn. reflexivity. }
+      { eapply mrun_S; [| exact R]. rewrite (mstep_at body (length pre) lm m ret0 _ Hn). cbn. reflexivity. }
       destruct F as (F1 & F2 & F3 & F4 & F5). repeat split; auto.
     + (* quiet statement *)
-      destruct (step_quiet body (length pre) s ret0 (fun y => ~ In y X) lm ls Hn Hq HP Ha)
+      destruct (step_quiet body (length pre) s ret0 (fun y => ~ In y X) lm ls m Hn Hq Hfr HP Ha)
         as (lm1 & ls1 & o1 & r1 & E1 & N1 & A1 & D1 & ev1 & O1 & St1).
       rewrite E1 in E. rewrite (quiet_for_var s Hq), app_nil_r in Hhyg.
       destruct r1 as [| v |]; [| | congruence].
       * destruct (sblock_with SX rest ls1) as [[l2 o2] r2] eqn:E2. inversion E; subst ls' out r.
-        destruct (IH (pre ++ [s]) lm1 ls1 X ret0 (done_after body (length pre))) with (ls' := l2) (out := o2) (r := r2)
+        destruct (IH (pre ++ [s]) lm1 ls1 X ret0 (done_after body (length pre)) m) with (ls' := l2) (out := o2) (r := r2)
           as (n & t' & ev & R & F); auto.
         { intros z Hz. apply D1. apply Habs. cbn [flat_map]. apply in_or_app. now right. }
         { apply done_after_mid. }
+        { apply HstS, stale_S, Hst. }
         rewrite Hlen, <- Hbody in R.
         exists (S n), t'; eexists. split.
         { eapply mrun_S; [exact St1 | exact R]. }
@@ -441,27 +648,52 @@ Proof.
       * inversion E; subst ls' out r. exists 1%nat; do 2 eexists. split.
         { apply mrun_1. exact St1. }
         cbn. repeat split; auto. discriminate.
-    + (* while *)
+    + (* while, quiet body *)
       cbn [sexec] in E.
       destruct (sloop _ _ _ fuel ls) as [[l1 o1] r1] eqn:E1.
       assert (N1 : r1 <> SFuel) by (intros ->; inversion E; subst; congruence).
       assert (Hfuel : (1 <= fuel)%nat) by (eapply fuel_pos_of_loop; [exact E1 | exact N1]).
-      destruct (while_sim body (length pre) c b ret0 (fun y => ~ In y X) Hn Hq HP Hfuel fuel lm ls l1 o1 r1 Ha E1 N1)
+      destruct (while_sim body (length pre) c b ret0 (fun y => ~ In y X) m Hn Hq Hfr HP Hfuel fuel lm ls l1 o1 r1 Ha E1 N1)
         as (n1 & t1 & ev1 & R1 & O1 & F1).
       cbn [for_var] in Hhyg. rewrite app_nil_r in Hhyg.
       destruct r1 as [| v |]; [| | congruence].
       * destruct F1 as (lm1 & -> & A1 & D1).
         destruct (sblock_with SX rest l1) as [[l2 o2] r2] eqn:E2. inversion E; subst ls' out r.
-        destruct (IH (pre ++ [SWhile c b]) lm1 l1 X ret0 (done_after body (length pre))) with (ls' := l2) (out := o2) (r := r2)
+        destruct (IH (pre ++ [SWhile c b]) lm1 l1 X ret0 (done_after body (length pre)) m) with (ls' := l2) (out := o2) (r := r2)
           as (n & t' & ev & R & F); auto.
         { intros z Hz. apply D1. apply Habs. cbn [flat_map]. apply in_or_app. now right. }
         { apply done_after_mid. }
+        { apply HstS, stale_S, Hst. }
         rewrite Hlen, <- Hbody in R.
         exists (n1 + n)%nat, t'; eexists. split.
-        { apply mrun_app with (t1 := T body (S (length pre)) lm1 (done_after body (length pre)) ret0); eassumption. }
+        { apply mrun_app with (t1 := T body (S (length pre)) lm1 m (done_after body (length pre)) ret0); eassumption. }
         destruct F as (F1 & F2 & F3 & F4 & F5). repeat split; auto.
         rewrite outputs_of_app, O1, F3. reflexivity.
       * destruct F1 as (lm1 & ->). inversion E; subst ls' out r. exists n1; do 2 eexists. split; [exact R1 |].
+        cbn. repeat split; auto. discriminate.
+    + (* while, quiet body with a trailing yield *)
+      cbn [sexec] in E.
+      destruct (sloop _ _ _ fuel ls) as [[l1 o1] r1] eqn:E1.
+      assert (N1 : r1 <> SFuel) by (intros ->; inversion E; subst; congruence).
+      assert (Hfuel : (1 <= fuel)%nat) by (eapply fuel_pos_of_loop; [exact E1 | exact N1]).
+      destruct (while_ty_sim body (length pre) c b0 ret0 (fun y => ~ In y X) m Hn Hq Hfr HP Hfuel fuel lm ls l1 o1 r1 m
+                  Ha (or_introl eq_refl) E1 N1)
+        as (n1 & t1 & ev1 & R1 & O1 & F1).
+      cbn [for_var] in Hhyg. rewrite app_nil_r in Hhyg.
+      destruct r1 as [| v |]; [| | congruence].
+      * destruct F1 as (lm1 & m1 & -> & Hm1 & A1 & D1).
+        destruct (sblock_with SX rest l1) as [[l2 o2] r2] eqn:E2. inversion E; subst ls' out r.
+        destruct (IH (pre ++ [SWhile c (b0 ++ [SYield])]) lm1 l1 X ret0 (done_after body (length pre)) m1) with (ls' := l2) (out := o2) (r := r2)
+          as (n & t' & ev & R & F); auto.
+        { intros z Hz. apply D1. apply Habs. cbn [flat_map]. apply in_or_app. now right. }
+        { apply done_after_mid. }
+        { apply HstS. destruct Hm1 as [-> | ->]; [apply stale_S, Hst | apply stale_set, Hst]. }
+        rewrite Hlen, <- Hbody in R.
+        exists (n1 + n)%nat, t'; eexists. split.
+        { apply mrun_app with (t1 := T body (S (length pre)) lm1 m1 (done_after body (length pre)) ret0); eassumption. }
+        destruct F as (F1 & F2 & F3 & F4 & F5). repeat split; auto.
+        rewrite outputs_of_app, O1, F3. reflexivity.
+      * destruct F1 as (lm1 & m1 & ->). inversion E; subst ls' out r. exists n1; do 2 eexists. split; [exact R1 |].
         cbn. repeat split; auto. discriminate.
     + (* for *)
       destruct (SX (SFor x i c u b) ls) as [[l1 o1] r1] eqn:E1.
@@ -470,13 +702,13 @@ Proof.
       { destruct fuel; [| lia]. cbn in E1. inversion E1; subst. congruence. }
       assert (Hx : lookup x lm = None).
       { apply Habs. cbn. now left. }
-      destruct (for_first_sim body (length pre) x i c u b ret0 (fun y => ~ In y X) Hn Hq HP Hfuel lm ls l1 o1 r1 Ha Hx E1 N1)
+      destruct (for_first_sim body (length pre) x i c u b ret0 (fun y => ~ In y X) m Hn Hq Hfr HP Hfuel lm ls l1 o1 r1 Ha Hx E1 N1)
         as (n1 & t1 & ev1 & R1 & O1 & F1).
       cbn [for_var] in Hhyg.
       destruct r1 as [| v |]; [| | congruence].
       * destruct F1 as (lm1 & -> & A1 & D1).
         destruct (sblock_with SX rest l1) as [[l2 o2] r2] eqn:E2. inversion E; subst ls' out r.
-        destruct (IH (pre ++ [SFor x i c u b]) lm1 l1 (X ++ [x]) ret0 (done_after body (length pre))) with (ls' := l2) (out := o2) (r := r2)
+        destruct (IH (pre ++ [SFor x i c u b]) lm1 l1 (X ++ [x]) ret0 (done_after body (length pre)) m) with (ls' := l2) (out := o2) (r := r2)
           as (n & t' & ev & R & F); auto.
         { intros z Hz. assert (z <> x).
           { intros ->. apply (hygienic_for_vars rest _ Hhyg x Hz). apply in_or_app. right. now left. }
@@ -485,9 +717,10 @@ Proof.
           - intros Hin. apply Hy. apply in_or_app. now left.
           - intros ->. apply Hy. apply in_or_app. right. now left. }
         { apply done_after_mid. }
+        { apply HstS, stale_S, Hst. }
         rewrite Hlen, <- Hbody in R.
         exists (n1 + n)%nat, t'; eexists. split.
-        { apply mrun_app with (t1 := T body (S (length pre)) lm1 (done_after body (length pre)) ret0); eassumption. }
+        { apply mrun_app with (t1 := T body (S (length pre)) lm1 m (done_after body (length pre)) ret0); eassumption. }
         destruct F as (F1 & F2 & F3 & F4 & F5). repeat split; auto.
         -- rewrite outputs_of_app, O1, F3. reflexivity.
         -- intros Hr. cbn [flat_map for_var]. cbn [app]. specialize (F5 Hr).
@@ -495,7 +728,6 @@ Proof.
       * destruct F1 as (lm1 & ->). inversion E; subst ls' out r. exists n1; do 2 eexists. split; [exact R1 |].
         cbn. repeat split; auto. discriminate.
 Qed.
-
 
 Lemma register_auto_true : forall body, register_auto body = true.
 Proof. intros body. unfold register_auto. destruct (negb (existsb has_yield body)); reflexivity. Qed.
@@ -523,11 +755,12 @@ Theorem resume_refines_sequential_l : forall body args ls' out r,
 Proof.
   intros body args ls' out r Hwf E N. unfold wf_body in Hwf.
   apply andb_true_iff in Hwf as [Hwf Hh]. apply andb_true_iff in Hwf as [Ht Hd].
-  destruct (tail_sim body [] args args [] None false Ht Hh) with (ls' := ls') (out := out) (r := r)
+  destruct (tail_sim body [] args args [] None false [] Ht Hh) with (ls' := ls') (out := out) (r := r)
     as (n & t' & ev & R & F1 & F2 & F3 & F4 & F5); auto.
   - intros z Hz. apply lookup_not_in. rewrite disjointb_spec in Hd. now apply Hd.
   - apply agree_refl.
   - discriminate.
+  - apply stale_nil.
   - exists n, t', ev. split; [| split; [assumption | split; [assumption | split; [assumption | split; [assumption |]]]]].
     + intros m Hm. unfold spawn. rewrite register_auto_true.
       replace m with (n + (m - n))%nat by lia.
@@ -536,21 +769,20 @@ Proof.
     + intros Hr y Hy. apply (F5 Hr). exact Hy.
 Qed.
 
-
 (* one step on a statement without yields and loops = that statement run sequentially on the saved locals *)
-Lemma locals_survive_l : forall body idx s ret lm,
-  nth_error body idx = Some s -> quiet s = true ->
+Lemma locals_survive_l : forall body idx s ret lm m,
+  nth_error body idx = Some s -> quiet s = true -> fresh [idx] m ->
   exists lm' ls' o r,
     SX s lm = (ls', o, r) /\ r <> SFuel /\ (forall y, lookup y lm' = lookup y ls') /\
     exists ev, outputs_of ev = o /\
-      mstep' (T body idx lm false ret) =
+      mstep' (T body idx lm m false ret) =
       (match r with
-       | SReturn_ v => T body idx lm' true (Some v)
-       | _ => T body (S idx) lm' (done_after body idx) ret
+       | SReturn_ v => T body idx lm' m true (Some v)
+       | _ => T body (S idx) lm' m (done_after body idx) ret
        end, ev).
 Proof.
-  intros body idx s ret lm Hn Hq.
-  destruct (step_quiet body idx s ret (fun _ => True) lm lm Hn Hq (fun _ _ => I) (agree_refl _ lm))
+  intros body idx s ret lm m Hn Hq Hfr.
+  destruct (step_quiet body idx s ret (fun _ => True) lm lm m Hn Hq Hfr (fun _ _ => I) (agree_refl _ lm))
     as (lm' & ls' & o & r & E & N & A & D & ev & O & St).
   exists lm', ls', o, r. split; [exact E |]. split; [exact N |]. split.
   - intros y. now apply A.
